@@ -355,6 +355,14 @@ func (c *Ctx) evalCall(env *Env, x *ast.CallExpr) Val {
 			return T{fmt.Sprintf("(forall ((%s Int)) %s)", bv.S, implies(rng, body).S), SBool}
 		}
 		return T{fmt.Sprintf("(exists ((%s Int)) %s)", bv.S, and(rng, body).S), SBool}
+	case "foralli":
+		v := args[0].(*ast.Ident)
+		c.nsym++
+		bv := T{fmt.Sprintf("q_%s_%d", v.Name, c.nsym), SInt}
+		c.inQuant++
+		body := c.evalBool(env.with(v.Name, bv), args[1])
+		c.inQuant--
+		return T{fmt.Sprintf("(forall ((%s Int)) %s)", bv.S, body.S), SBool}
 	case "forallr":
 		// forallr(x, P): universally quantified real
 		v := args[0].(*ast.Ident)
